@@ -790,3 +790,102 @@ func dispatcherGoroutinesOwnTheirTask(c *eng.Ctx) {
 		c.Check(true, "goroutines-examined", nil, nil, "the goroutines started in internal/concurrent were examined", fmt.Sprintf("%d go statements", n))
 	})
 }
+
+// ---- F73 (C16): the measurement of a protocol line ends at the first separator, comma OR white space -------------------------------------------
+//
+// `measurement[,tags] fields [timestamp]`: the measurement ends at the first unescaped comma (tags follow) or at the first
+// unescaped white space (no tags), whichever comes FIRST.  Taking the first comma of the whole line cuts a tag-less line
+// with two or more fields inside its field set (`cpu a=1,b=2`): the row is dropped or stored under the name "cpu a=1".
+func measurementEndsAtTheFirstSeparator(c *eng.Ctx) {
+	_ = c.P
+	c.Rule("GUARD", "ingestion/influx.scanMetricName{the comma that ends the measurement lies before the first white space}", func() {
+		f := c.Fn("ingestion/influx.scanMetricName")
+		walkOf := func(ch int64) []ssa.Value {
+			var out []ssa.Value
+			for _, b := range eng.BlocksT(f) {
+				for _, in := range b.Instrs {
+					cl, ok := in.(*ssa.Call)
+					if !ok || calleeName(cl) != "walkToUnescapedChar" {
+						continue
+					}
+					a := eng.CallArgs(cl)
+					if len(a) >= 2 {
+						if k, isC := eng.ConstInt(a[1]); isC && k == ch {
+							out = append(out, cl)
+						}
+					}
+				}
+			}
+			return out
+		}
+		commas, spaces := walkOf(','), walkOf(' ')
+		c.Check(len(commas) >= 1 && len(spaces) >= 1, "separators-searched", nil, f, "scanMetricName looks for the first comma and the first white space", fmt.Sprintf("%d / %d searches", len(commas), len(spaces)))
+		isOf := func(v ssa.Value, set []ssa.Value) bool {
+			return eng.DependsOn(v, func(x ssa.Value) bool {
+				for _, s := range set {
+					if x == s {
+						return true
+					}
+				}
+				return false
+			})
+		}
+		n := 0
+		for _, b := range f.Blocks {
+			r, ok := b.Instrs[len(b.Instrs)-1].(*ssa.Return)
+			if !ok || len(r.Results) < 1 || !eng.ReturnsNilError(r) {
+				continue
+			}
+			if !isOf(r.Results[0], commas) || isOf(r.Results[0], spaces) {
+				continue // not the "tags follow" exit
+			}
+			n++
+			// the comparisons of the two positions, and the edges on which the comma position is known not to be positive
+			// (those paths end in the "no comma" exits, not here)
+			var cmps []ssa.Instruction
+			for _, b2 := range f.Blocks {
+				for _, in2 := range b2.Instrs {
+					if bo, isB := in2.(*ssa.BinOp); isB {
+						switch bo.Op {
+						case token.LSS, token.LEQ, token.GTR, token.GEQ:
+							if isOf(bo.X, commas) && isOf(bo.Y, spaces) || isOf(bo.X, spaces) && isOf(bo.Y, commas) {
+								cmps = append(cmps, in2)
+							}
+						}
+					}
+				}
+			}
+			noComma := eng.EdgesWithFact(f, func(ft eng.Fact) bool {
+				k, isC := eng.ConstInt(ft.Y)
+				// ... nor is there anything to compare with when the line has no white space at all
+				return isC && k == 0 && (isOf(ft.X, commas) || isOf(ft.X, spaces)) && (ft.Op == "le" || ft.Op == "lt" || ft.Op == "eq")
+			})
+			_, bypass := eng.PathExists(eng.PathQuery{Fn: f,
+				Target: func(in2 ssa.Instruction) bool { return in2 == ssa.Instruction(r) },
+				Blocked: func(in2 ssa.Instruction) bool {
+					for _, x := range cmps {
+						if x == in2 {
+							return true
+						}
+					}
+					return false
+				},
+				Edge: eng.ForbidEdges(noComma)})
+			compared := len(cmps) > 0 && !bypass
+			// or: the comma was searched only in front of the first white space
+			if !compared {
+				for _, cm := range commas {
+					cl := cm.(*ssa.Call)
+					a := eng.CallArgs(cl)
+					if len(a) >= 1 && isOf(a[0], spaces) {
+						compared = true
+					}
+				}
+			}
+			c.Check(compared, fmt.Sprintf("comma-before-the-first-space[%d]", n), r, f,
+				"the position of the first comma is taken for the end of the measurement only when no white space lies before it: in a line without tags the first comma separates two FIELDS",
+				"the comma's position is returned without having been compared with the position of the first white space")
+		}
+		c.Check(n >= 1, "tags-exit-found", nil, f, "scanMetricName has an exit for 'tags follow'", "")
+	})
+}
